@@ -1,12 +1,12 @@
 #!/bin/sh
-# tools/sweep.sh "<seeds>" [tier] : every registered check under several seeds; prints one line per run.
+# tools/sweep.sh "<seeds>" [tier] ["<props>"] : every registered check under several seeds; prints one line per run.
 # Any line not ending in "rc=0" on the unchanged tree is a false alarm (or a flaky check) to be diagnosed.
 cd "$(dirname "$0")/.."
-SEEDS="${1:-2 3 4}"; TIER="${2:-quick}"
+SEEDS="${1:-2 3 4}"; TIER="${2:-quick}"; PROPS="${3:-}"
 ./setup.sh > /dev/null 2>&1 || echo "setup failed"
 mkdir -p .work/sweep
 for s in $SEEDS; do
-  for p in $(python3 -c "import json;print(' '.join(c['property_id'] for c in json.load(open('MANIFEST.json'))['checks']))"); do
+  for p in ${PROPS:-$(python3 -c "import json;print(' '.join(c['property_id'] for c in json.load(open('MANIFEST.json'))['checks']))")}; do
     echo "$s $p"
   done
 done | xargs -P 3 -L 1 sh -c 'VERIF_SEED=$0 VERIF_EVIDENCE_DIR=.work/sweep/ev_$0 VERIF_REPLAY_DIR=.work/sweep/rp_$0 VERIF_WORK_DIR=.work/sweep/w_$0_$1 timeout 3000 ./check $1 --tier '"$TIER"' > .work/sweep/$1_$0.log 2>&1; echo "seed=$0 $1 rc=$? $(grep -c ^VIOLATION .work/sweep/$1_$0.log) violations; $(tail -n 1 .work/sweep/$1_$0.log | cut -c1-150)"'
